@@ -29,6 +29,8 @@ class Oracle:
         return frozenset((n.tag if n.tag and not n.tag.startswith("var") else id(n)) for n in nodes)
 
     def query(self, S):
+        if not S:
+            return True          # the empty constraint set is satisfiable
         for T, a in self.hist:
             if a and S <= T:
                 return True
@@ -54,6 +56,7 @@ class StmtStub:
         if priority is not None:
             self.priority = priority
         self.node = None
+        self.srcinfo = None
         self.builds = []
         self.disposed = 0
 
@@ -140,9 +143,12 @@ def shapes(tier, seed):
         base += [[(2, 2, 2)], [(1, 2, 3)], [(1, 1, 1), (1, 1, 1)], [(1, 1, 0), (1, 1, 0), (1, 0, 1)], [(2, 1, 3)]]
     for sh in base:
         for dbg in (0, 1):
-            out.append((sh, dbg, False))
-    out.append(([(2, 1, 0)], 0, True))
-    out.append(([(2, 1, 1)], 0, True))
+            out.append((sh, dbg, False, 0))
+    out.append(([(2, 1, 0)], 0, True, 0))
+    out.append(([(2, 1, 1)], 0, True, 0))
+    # solve_fail_debug: the diagnostics pass re-builds every rand set in a second solver
+    for sh in ([(1, 1, 0)], [(1, 2, 0)], [(1, 1, 0), (1, 1, 0)], [(1, 1, 1), (1, 1, 0)]):
+        out.append((sh, 0, False, 1))
     return out
 
 
@@ -161,7 +167,7 @@ FNS = ["vsc.model.randomizer.Randomizer.randomize", "vsc.model.randomizer.Random
           replay="none", max_paths=200000,
           note="Randomizer.randomize protocol: rand-set structures <= 3 sets x <= 2 rand fields (2-bit) x <= 2 hard x <= 3 soft "
                "abstract statements; all Sat-answer sequences consistent with an anti-monotone oracle; all random index/pattern draws")
-def c_protocol(c, shape, debug, ordered):
+def c_protocol(c, shape, debug, ordered, sfd=0):
     import vsc.model.randomizer as R
     import vsc.model.solvegroup_swizzler_partsel as SW
     from vsc.model.solve_failure import SolveFailure
@@ -177,8 +183,22 @@ def c_protocol(c, shape, debug, ordered):
     rs_ = GhostRandState(c)
     trip = []
     exc = None
-    with patched((R, "Boolector", mk_btor), (R, "random", TripWire("random", trip))):
-        r = R.Randomizer(rs_, debug=debug)
+    class PP:
+        @staticmethod
+        def print(*a, **k):
+            return "<c>"
+
+    class Lint:
+        def lint(self, fl, cl):
+            return ""
+
+    class SI:
+        @staticmethod
+        def toString(x):
+            return "<src>"
+    with patched((R, "Boolector", mk_btor), (R, "random", TripWire("random", trip)), (R, "ModelPrettyPrinter", PP),
+                 (R, "LintVisitor", Lint), (R, "SourceInfo", SI)):
+        r = R.Randomizer(rs_, debug=debug, solve_fail_debug=sfd)
         r.pretty_printer = Printer()
         try:
             r.randomize(ri, bound_m)
@@ -191,12 +211,20 @@ def c_protocol(c, shape, debug, ordered):
     # ---- which hard check failed, if any
     hard_unsat = False
     for b in solvers:
-        if b.sat_calls and b.sat_calls[0][2] is False:
+        if b.sat_calls and b.sat_calls[0][2] is False and not getattr(b, "is_diag", False):
             hard_unsat = True
+        if hard_unsat:
+            break            # the solver created after the failing one is the diagnostics solver
     c.check("SolveFailure is raised iff the hard check of a rand set answered UNSAT", (exc is not None) == hard_unsat)
 
-    # ---- per solver: assert discipline and model validity
+    # ---- per solver: assert discipline and model validity (the diagnostics solver, created after the failing check when
+    # solve_fail_debug is set, only produces text and is exempt from the assert discipline)
+    main = []
     for b in solvers:
+        main.append(b)
+        if b.sat_calls and b.sat_calls[0][2] is False:
+            break
+    for b in main:
         sat_set = None
         first_sat_seen = False
         ok_assert = True
